@@ -406,7 +406,27 @@ func checkC09(c *hx.Ctx) {
 			if r.Chance(1, 4) {
 				delete(jwk, hx.Pick(r, []string{"kty", "crv", "x", "y"}))
 			}
-			if js == g.jws || sameDecodedJWS(js, g.jws) {
+			if r.Chance(1, 3) {
+				// arbitrary JWK member values: random coordinates of random length, foreign kty/crv combinations, garbage
+				for _, m := range []string{"x", "y"} {
+					if r.Bool() {
+						jwk[m] = hx.Pick(r, []string{ref.B64(r.Bytes(r.Intn(70))), "", "AA", "!!!", ref.B64(make([]byte, 32)), ref.B64(r.Bytes(32)), ref.B64(r.Bytes(66)), strings.Repeat("_", 43)})
+					}
+				}
+				if r.Bool() {
+					jwk["kty"] = hx.Pick(r, []string{"EC", "OKP", "RSA", "oct", "", "ec", "okp"})
+				}
+				if r.Bool() {
+					jwk["crv"] = hx.Pick(r, []string{"P-256", "P-384", "P-521", "secp256k1", "Ed25519", "X25519", "Ed448", "P-224", "", "p-256"})
+				}
+				if r.Chance(1, 2) {
+					js = g.jws // a genuine JWS under an arbitrary JWK must not verify unless the JWK is the genuine key
+					if sameJWK(jwk, jwkStrings(g.key)) {
+						continue
+					}
+				}
+			}
+			if (js == g.jws || sameDecodedJWS(js, g.jws)) && sameJWK(jwk, jwkStrings(g.key)) {
 				continue // textual variants that decode to the same header, payload and signature are not alterations
 			}
 			c.Eval()
@@ -451,6 +471,26 @@ func sameDecodedJWS(a, b string) bool {
 	for i := 0; i < 3; i++ {
 		da, e1 := ref.UnB64(pa[i])
 		db, e2 := ref.UnB64(pb[i])
+		if e1 != nil || e2 != nil || string(da) != string(db) {
+			return false
+		}
+	}
+	return true
+}
+
+func sameJWK(a, b map[string]string) bool {
+	for _, m := range []string{"kty", "crv", "x", "y"} {
+		da, e1 := ref.UnB64(a[m])
+		db, e2 := ref.UnB64(b[m])
+		if m == "kty" || m == "crv" {
+			if a[m] != b[m] {
+				return false
+			}
+			continue
+		}
+		if m == "y" && b["kty"] == "OKP" {
+			continue // an OKP key has no y coordinate; a stray y member does not make it another key
+		}
 		if e1 != nil || e2 != nil || string(da) != string(db) {
 			return false
 		}
